@@ -11,8 +11,11 @@ DOMAINS = {
     ('stdnum.gs1_128', 'separator'): ['', '|', '[FNC1]', '\x1d'],
     ('stdnum.luhn', 'alphabet'): ['0123456789', '0123456789abcdef', '0123456789ABCDEFGHIJKLMNOPQRSTUVWXYZ',
                                    'abcdef', 'ABCDEFGHIJKLMNOPQRSTUVWXYZ0123456789'],
-    ('stdnum.iso7064.mod_37_2', 'alphabet'): ['0123456789ABCDEFGHIJKLMNOPQRSTUVWXYZ*', '0123456789X'],
-    ('stdnum.iso7064.mod_37_36', 'alphabet'): ['0123456789ABCDEFGHIJKLMNOPQRSTUVWXYZ', '0123456789'],
+    # other moduli, and other alphabets of the *same* length (a table cached per length or per character goes stale)
+    ('stdnum.iso7064.mod_37_2', 'alphabet'): ['0123456789ABCDEFGHIJKLMNOPQRSTUVWXYZ*', '0123456789X',
+                                                'ABCDEFGHIJKLMNOPQRSTUVWXYZ0123456789*', 'X0123456789'],
+    ('stdnum.iso7064.mod_37_36', 'alphabet'): ['0123456789ABCDEFGHIJKLMNOPQRSTUVWXYZ', '0123456789',
+                                                 'ABCDEFGHIJKLMNOPQRSTUVWXYZ0123456789', '9876543210'],
     # the alternative table printed in the damm docstring
     ('stdnum.damm', 'table'): [None, ((0, 2, 3, 4, 5, 6, 7, 8, 9, 1), (2, 0, 4, 1, 7, 9, 5, 3, 8, 6),
                                       (3, 7, 0, 5, 2, 8, 1, 6, 4, 9), (4, 1, 8, 0, 6, 3, 9, 2, 7, 5),
